@@ -14,22 +14,25 @@ From V Require Import Base.PyInt.
 Section Tree.
 Variable D : Type.            (* clock drivers (compared by identity in Python; here any type) *)
 
-Inductive obj := Obj (drv : option D) (parent : option obj).
+(* Top: parent == None;  Sub: parent is another object *)
+Inductive obj := Top (drv : option D) | Sub (drv : option D) (parent : obj).
 
-Definition o_drv (o : obj) : option D := match o with Obj d _ => d end.
-Definition o_parent (o : obj) : option obj := match o with Obj _ p => p end.
+Definition o_drv (o : obj) : option D := match o with Top d | Sub d _ => d end.
 
 (* None = the exception 'No clock driver at top level' *)
 Fixpoint getObjectClockDriver (o : obj) : option D :=
   match o with
-  | Obj (Some d) _ => Some d
-  | Obj None None => None
-  | Obj None (Some p) => getObjectClockDriver p
+  | Top (Some d) | Sub (Some d) _ => Some d
+  | Top None => None
+  | Sub None p => getObjectClockDriver p
   end.
 
 (* the object itself, its parent, grandparent, ... up to the top *)
 Fixpoint ancestors (o : obj) : list obj :=
-  o :: match o with Obj _ (Some p) => ancestors p | Obj _ None => [] end.
+  o :: match o with Sub _ p => ancestors p | Top _ => [] end.
+
+Definition mk_obj (drv : option D) (parent : option obj) : obj :=
+  match parent with None => Top drv | Some p => Sub drv p end.
 
 (* ------------------------------------------------------------------ the hierarchy seen from the top (allLeaves) *)
 (* a node: its clockDriver field, whether its class has a clock() method, its children (dict order) *)
@@ -39,7 +42,7 @@ Inductive htree := HNode (drv : option D) (clockable : bool) (children : list ht
 Fixpoint leaves_of (t : htree) (parent : option obj) : list (bool * obj) :=
   match t with
   | HNode drv c children =>
-      let me := Obj drv parent in
+      let me := mk_obj drv parent in
       match children with
       | [] => [(c, me)]
       | _ => flat_map (fun ch => leaves_of ch (Some me)) children
@@ -58,7 +61,7 @@ Fixpoint leaves_inherited (t : htree) (inh : option D) : list (bool * option D) 
   end.
 End Tree.
 
-Arguments Obj {D}. Arguments o_drv {D}. Arguments o_parent {D}. Arguments getObjectClockDriver {D}. Arguments ancestors {D}.
+Arguments Top {D}. Arguments Sub {D}. Arguments o_drv {D}. Arguments getObjectClockDriver {D}. Arguments ancestors {D}. Arguments mk_obj {D}.
 Arguments HNode {D}. Arguments leaves_of {D}. Arguments leaves_inherited {D}.
 
 (* ------------------------------------------------------------------ topologicalSort's bucketing (drivers as numbers) *)
